@@ -3,6 +3,7 @@
 From stdpp Require Import gmap strings sets pretty sorting.
 From SK Require Import model.C15_Model proof.C15_Proof.
 From SK Require Import model.C15_Ext proof.C15_Ext proof.C15_ExtQ proof.C15_ExtP proof.C15_ExtS proof.C15_ExtL proof.C15_ExtM proof.C15_ExtH proof.C15_ExtEx.
+From SK Require Import model.C15_View proof.C15_View.
 Local Open Scope string_scope.
 
 (** ** 1. The store invariant *)
@@ -557,3 +558,72 @@ Proof.
   intros o Hn Hd. apply Hn. destruct o as [[]| | | | | | | | | |]; exact Hd.
 Qed.
 Print Assumptions C15_history_added_kept.
+
+(** ** 7. (round 4) Cached graph views of a network — _CRNGraphBackend.G (the base of
+    CRNCanonicalizer / CRNAutomorphism / WLCanonicalizer), model/C15_View.v:
+    [op3]/[step3] = the store language + backend objects that hold a reference to a
+    network and a cached view with the network's version count at build time. *)
+
+(** what [VInv] says: a cached view never carries a version from the future, and
+    one whose version is the network's current version was built from a store
+    with exactly the current content (everything but the id counters) *)
+Theorem C15_view_inv_meaning : forall w : world3,
+  VInv w <->
+  length (vers w) = length (nets (w2 w)) /\
+  forall b be v snap, backends w !! b = Some be -> b_cache be = Some (v, snap) ->
+    (v <= getv (vers w) (b_net be))%N /\
+    (v = getv (vers w) (b_net be) ->
+     let cur := getn (nets (w2 w)) (b_net be) in
+     species snap = species cur /\ edges snap = edges cur /\ order snap = order cur /\ s_in snap = s_in cur /\
+     s_out snap = s_out cur /\ mol snap = mol cur /\ kept snap = kept cur).
+Proof. exact VInv_unfold. Qed.
+Print Assumptions C15_view_inv_meaning.
+
+(** every op that goes through the methods of the store — every [op2] except the
+    caller-side coefficient edits of a returned side — and every backend op keeps it *)
+Theorem C15_view_inv_step : forall (w : world3) (o : op3),
+  match o with O2 (OSideSet _ _ _ _ _) | O2 (OSideIncr _ _ _ _ _) => False | _ => True end ->
+  VInv w -> VInv (step3 w o).1.1.
+Proof. exact step3_VInv. Qed.
+Print Assumptions C15_view_inv_step.
+
+(** the store part of [step3] IS the round-3 language; reading a view never changes the store *)
+Theorem C15_view_store : forall (w : world3) (o2 : op2) (b : nat),
+  (w2 (step3 w (O2 o2)).1.1 = (step2 (w2 w) o2).1.1 /\ (step3 w (O2 o2)).1.2 = (step2 (w2 w) o2).1.2 /\
+   (step3 w (O2 o2)).2 = (step2 (w2 w) o2).2) /\
+  w2 (step3 w (OView b)).1.1 = w2 w /\ w2 (step3 w (OViewType b)).1.1 = w2 w.
+Proof. intros w o2 b. split; [exact (step3_store w o2)|exact (step3_view_store w b)]. Qed.
+Print Assumptions C15_view_store.
+
+(** C15_view_current: after ANY history of such ops from empty networks, whatever
+    backends were created when, the graph a backend hands out on access was built
+    from a store that agrees with the network AS IT IS NOW on everything the export
+    with the backend's options reads (species; reactions with rule and sides —
+    coefficients where exported; two-sided reactions only for the species graph);
+    the answer of the model's [OView] says so ([tbool true]) *)
+Theorem C15_view_current : forall (n k nb : nat) (ops : list op3) (b : nat),
+  Forall (fun o => match o with O2 (OSideSet _ _ _ _ _) | O2 (OSideIncr _ _ _ _ _) => False | _ => True end) ops ->
+  let w := fold_left (fun w o => (step3 w o).1.1) ops (init_world3 n k nb) in
+  let be := getb (backends w) b in
+  vproj (b_opts be) (access w b).2 = vproj (b_opts be) (getn (nets (w2 w)) (b_net be)) /\
+  (step3 w (OView b)).2 = Tok.L [Tok.tstr (graph_type (b_opts be)); Tok.tbool (access w b).1.2; Tok.tbool true].
+Proof.
+  intros n k nb ops b Hs w be. apply view_current_inv. apply run3_VInv; [exact Hs|apply VInv_init].
+Qed.
+Print Assumptions C15_view_current.
+
+(** the clause "… after every operation of the extended language" fails for the
+    caller-side coefficient edit: the version count cannot see an edit made
+    through a returned edge object; a view that reads coefficients (species
+    graph) is then served stale from the cache, one that does not (bipartite
+    without stoichiometry) is unaffected.  Known finding C15:view-stale-after-inplace-coefficient-edit. *)
+Theorem C15_view_coef_edit_refuted :
+  exists (ops : list op3) (b : nat),
+    (access (fold_left (fun w o => (step3 w o).1.1) ops (init_world3 1 0 2)) b).1.2 = false /\
+    vproj (b_opts (getb (backends (fold_left (fun w o => (step3 w o).1.1) ops (init_world3 1 0 2))) b))
+          (access (fold_left (fun w o => (step3 w o).1.1) ops (init_world3 1 0 2)) b).2 <>
+    vproj (b_opts (getb (backends (fold_left (fun w o => (step3 w o).1.1) ops (init_world3 1 0 2))) b))
+          (getn (nets (w2 (fold_left (fun w o => (step3 w o).1.1) ops (init_world3 1 0 2))))
+                (b_net (getb (backends (fold_left (fun w o => (step3 w o).1.1) ops (init_world3 1 0 2))) b))).
+Proof. exact view_coef_edit_refuted. Qed.
+Print Assumptions C15_view_coef_edit_refuted.
